@@ -247,6 +247,75 @@ mod imp {
         }
     }
 
+    /// Guest memory over emulated regions with a raw view of every region (pread/pwrite on the
+    /// device file or the host pointer), usable as a `Subject` of the flat-memory checks.
+    pub struct XenMem {
+        pub mem: vm_memory::GuestMemoryMmap<()>,
+        views: Vec<(Option<(File, u64)>, usize)>,
+    }
+
+    impl XenMem {
+        pub fn build(layout: &crate::common::Layout, kinds: &[Kind]) -> Result<Self, String> {
+            let mut regs = Vec::new();
+            let mut views = Vec::new();
+            for (i, &(s, l)) in layout.regs.iter().enumerate() {
+                let xr: XenRegion<()> = build(kinds[i], s, l as usize)?;
+                let host = if kinds[i] == Kind::GrantOnDemand { 0 } else { xr.region.as_ptr() as usize };
+                views.push((xr.file.as_ref().map(|(f, o)| (f.try_clone().unwrap(), *o)), host));
+                regs.push(std::sync::Arc::new(xr.region));
+            }
+            let mem = vm_memory::GuestMemoryMmap::from_arc_regions(regs).map_err(|e| format!("{:?}", e))?;
+            Ok(XenMem { mem, views })
+        }
+    }
+
+    impl vm_memory::GuestMemory for XenMem {
+        type R = GuestRegionMmap<()>;
+        fn num_regions(&self) -> usize {
+            self.mem.num_regions()
+        }
+        fn find_region(&self, addr: GuestAddress) -> Option<&Self::R> {
+            self.mem.find_region(addr)
+        }
+        fn iter(&self) -> impl Iterator<Item = &Self::R> {
+            self.mem.iter()
+        }
+    }
+
+    impl crate::common::Subject for XenMem {
+        fn host(&self, region: usize) -> *mut u8 {
+            self.views[region].1 as *mut u8
+        }
+        fn slack(&self, _region: usize) -> usize {
+            0
+        }
+        fn kind(&self) -> &'static str {
+            "xen"
+        }
+        fn raw_read(&self, region: usize, len: usize) -> Vec<u8> {
+            match &self.views[region].0 {
+                Some((f, off)) => pread_all(f, *off, len),
+                None => {
+                    let p = self.views[region].1 as *const u8;
+                    // SAFETY: unix mapping of the region.
+                    (0..len).map(|o| unsafe { p.add(o).read_volatile() }).collect()
+                }
+            }
+        }
+        fn raw_write(&self, region: usize, off: usize, data: &[u8]) {
+            match &self.views[region].0 {
+                Some((f, foff)) => f.write_all_at(data, foff + off as u64).expect("pwrite"),
+                None => {
+                    let p = self.views[region].1 as *mut u8;
+                    for (i, b) in data.iter().enumerate() {
+                        // SAFETY: unix mapping of the region.
+                        unsafe { p.add(off + i).write_volatile(*b) };
+                    }
+                }
+            }
+        }
+    }
+
     pub fn gen_kind(t: &mut Tape) -> Kind {
         t.pick(&[Kind::GrantOnDemand, Kind::GrantOnDemand, Kind::GrantAdvance, Kind::Foreign, Kind::UnixAnon, Kind::UnixFile])
     }
